@@ -106,6 +106,21 @@ def genOps2 : List (String × R String) := [
         let c := (List.range 4).map (Spec.ecdsaRecover (Py.ofBE dg) (Py.ofBE (rs.take 32)) (Py.ofBE ((rs.drop 32).take 32)))
         (Except.ok ((c.takeWhile Option.isSome).filterMap id) : Except PyErr (List (Nat × Nat)))
       pure (ansG (fun (P : Nat × Nat) => s!"{hex (Py.beBytes 32 P.1)} {hex (Py.beBytes 32 P.2)}") (Gen.pubkey_recover Crypto.sha256 rk m sig))),
+  ("g:sw_init", do
+      -- SegwitAddress.__init__ of the class named in the first field (script=None): numeric version and program stored
+      let first ← next
+      let (ty, hrp) ← (match first.splitOn ":" with
+        | [tn, h] => pure ((tn.splitOn "/").headD "", h)
+        | _ => throw "bad ty/net:hrp")
+      let a ← next; let p ← next
+      let vs := if ty == "p2wpkh" then "p2wpkhv0" else if ty == "p2wsh" then "p2wshv0" else "p2trv1"
+      let addr : Option (List Char) ← (if a == "none" then pure none else if a == "-" then pure (some []) else
+        match unhex a with
+        | some b => (match String.fromUTF8? (ByteArray.mk b.toArray) with | some s => pure (some s.toList) | none => throw "bad utf8")
+        | none => throw "bad hex")
+      let prog : Option Bytes ← (if p == "none" then pure none else if p == "-" then pure (some []) else
+        match unhex p with | some b => pure (some b) | none => throw "bad hex")
+      pure (ansG (fun (r : Int × Bytes) => s!"{r.1} {hex r.2}") (Gen.segwit_init hrp.toList addr prog vs))),
   ("g:sw_addr", do
       let hrp ← netHrp; let v ← nat; let prog ← bytes
       pure (ansG (fun (r : Option (List Char)) => match r with | some cs => hexStr (String.ofList cs) | none => "none")
